@@ -260,6 +260,14 @@ class Run:
                 g = REG.eval_clause(interp, cond, c, env)
                 ctx.oblige("noraise/%s/%d" % (tag, j), z3.Not(sym.truth(g)),
                            clause="returns normally only if not (%s)" % cond)
+        # frame: array arguments are not modified in place unless the contract says so (callers keep using them)
+        modifies = set(c.frame or ())
+        for a, v in env.items():
+            if isinstance(v, SArr) and a not in modifies and ("old_" + a) in old:
+                o = old["old_" + a]
+                idx = interp.models.generic_index(interp, v)
+                ctx.oblige("frame/%s/%s" % (tag, a), lift_eq(v.at(*idx), o.at(*idx)),
+                           clause="argument array `%s` is left unchanged" % a)
         for lem in c.lemmas:
             from . import sumtheory
             sumtheory.use_lemma(interp, lem[0], [envp[a] if isinstance(a, str) else a for a in lem[1:]])
@@ -368,6 +376,12 @@ def _gen_theorem_job(idx):
             "engine_errors": sub.engine_errors, "engine_error_owner_idx": [idx] * len(sub.engine_errors),
             "paths": sub.paths, "covered": sub.covered, "trusted": sub.trusted, "contracts_used": sub.contracts_used,
             "dropped": sub.dropped, "lemmas": sub.lemmas, "functions": sub.functions, "axioms": set(solve.USED_AXIOMS)}
+
+
+def lift_eq(a, b):
+    if isinstance(a, Sym) or isinstance(b, Sym):
+        return a == b
+    return bool(a == b)
 
 
 def _mk_ob(oid, pc, goal, clause, ctx):
